@@ -267,13 +267,19 @@ package sourcebundle
 
 // Finder diagnostics are wrapped, not altered: every element is replaced by a wrapper around itself.
 //@ func (Diagnostics).inRemoteSourcePackage -> (r)
-//@   modifies diags
-//@   invariant loop1 C12.diags.wrap.inv: rangeindex < len(diags)
-//@       && (0 <= anyIndex && anyIndex <= rangeindex ==> dyntype(diags[anyIndex], "sourcebundle.diagnosticInSourcePackage")
-//@             && unbox(diags[anyIndex], "sourcebundle.diagnosticInSourcePackage").wrapped == old(diags[anyIndex]) && unbox(diags[anyIndex], "sourcebundle.diagnosticInSourcePackage").pkg == pkg)
-//@       && (anyIndex > rangeindex ==> diags[anyIndex] == old(diags[anyIndex]))
-//@   ensures C12.diags.wrap.all: r == diags && (0 <= anyIndex && anyIndex < len(diags) ==> dyntype(r[anyIndex], "sourcebundle.diagnosticInSourcePackage")
-//@             && unbox(r[anyIndex], "sourcebundle.diagnosticInSourcePackage").wrapped == old(diags[anyIndex]) && unbox(r[anyIndex], "sourcebundle.diagnosticInSourcePackage").pkg == pkg)
+//@   pure
+//@   replay bundleDiags@C12:
+// the rewriting of file names by Source() is not under contract (it goes through the Diagnostic interface of the caller's
+// own types); a bounded run stands in: three packages, one finder handing out one slice, caller and tracer both checked
+//@   ensures-bounded bundleDiags C12.diags.file-names-rewritten-per-package: true
+// the slice the finder returned is not written (it may hand it out again): a store into it fails this obligation
+//@   opt pure-label=C12.diags.finder-slice-untouched
+//@   fresh-invariant loop1 ret
+//@   invariant loop1 C12.diags.wrap.inv: rangeindex < len(diags) && len(ret) == len(diags)
+//@       && (0 <= anyIndex && anyIndex <= rangeindex ==> dyntype(ret[anyIndex], "sourcebundle.diagnosticInSourcePackage")
+//@             && unbox(ret[anyIndex], "sourcebundle.diagnosticInSourcePackage").wrapped == diags[anyIndex] && unbox(ret[anyIndex], "sourcebundle.diagnosticInSourcePackage").pkg == pkg)
+//@   ensures C12.diags.wrap.all: len(r) == len(diags) && (0 <= anyIndex && anyIndex < len(diags) ==> dyntype(r[anyIndex], "sourcebundle.diagnosticInSourcePackage")
+//@             && unbox(r[anyIndex], "sourcebundle.diagnosticInSourcePackage").wrapped == diags[anyIndex] && unbox(r[anyIndex], "sourcebundle.diagnosticInSourcePackage").pkg == pkg)
 
 //@ func (diagnosticInSourcePackage).Severity -> (r)
 //@   pure
